@@ -7,14 +7,14 @@ package main
 // source's logical values.
 
 import (
-	"path/filepath"
-	"os"
-	"io/ioutil"
 	"bufio"
 	"bytes"
 	"encoding/json"
 	"fmt"
+	"io/ioutil"
 	"math/rand"
+	"os"
+	"path/filepath"
 	"sort"
 	"strconv"
 	"strings"
@@ -59,6 +59,8 @@ type fsTarget struct {
 	NoReplace   bool   `json:"no_replace"`
 	BusyText    string `json:"busy_text"`
 	RejectTypes []int  `json:"reject_types"`
+	FaultKey    string `json:"fault_key"`  // the first RESTORE of this (destination) key is answered with FaultText instead of being executed
+	FaultText   string `json:"fault_text"` // e.g. "BUSY Redis is busy running a script. ...", "OOM command not allowed when used memory > 'maxmemory'."
 	NoIdleFreq  bool   `json:"no_idle_freq"`
 }
 
@@ -460,6 +462,27 @@ func fsOne(tr *tracer.T, seed int64, c *fsCase) int {
 		"fdb_white": ints(c.Cfg.FdbWhite), "fdb_black": ints(c.Cfg.FdbBlack), "fkey_white": bss(c.Cfg.FkeyWhite), "fkey_black": bss(c.Cfg.FkeyBlack),
 		"fslot": ints(c.Cfg.Fslot)}
 	tr.Emit(tracer.Ev{"e": "case", "case": c.Id, "cfg": cfgEv, "entries": ents, "pre": pres, "scripts": len(scripts)})
+	// a fault at the target: one RESTORE is refused with an error reply that has nothing to do with the key existing
+	var faultMu sync.Mutex
+	faultFired := false
+	fault := func(cmd string, args [][]byte) *mredis.Reply {
+		if c.Cfg.Target.FaultKey == "" || cmd != "RESTORE" || len(args) == 0 || string(args[0]) != c.Cfg.Target.FaultKey {
+			return nil
+		}
+		faultMu.Lock()
+		defer faultMu.Unlock()
+		if faultFired {
+			return nil
+		}
+		faultFired = true
+		r := mredis.Err(c.Cfg.Target.FaultText)
+		return &r
+	}
+	if c.Cfg.Target.FaultKey != "" {
+		srv.SetHook(func(conn, db int, cmd string, args [][]byte) mredis.HookResult {
+			return mredis.HookResult{Override: fault(cmd, args)}
+		})
+	}
 	// scheduling of the target
 	var sch *fsSched
 	if c.Cfg.Sched == "random" || c.Cfg.Sched == "victim" {
@@ -478,7 +501,14 @@ func fsOne(tr *tracer.T, seed int64, c *fsCase) int {
 			default:
 			}
 			<-ch
-			return mredis.HookResult{}
+			o := fault(cmd, args)
+			if o != nil {
+				select { // the refused command is not executed: tell the scheduler not to wait for it
+				case sch.executed <- struct{}{}:
+				default:
+				}
+			}
+			return mredis.HookResult{Override: o}
 		})
 		srv.SetAfterHook(func(e mredis.LogEntry) {
 			if e.Cmd != "AUTH" {
@@ -618,7 +648,10 @@ func fsOne(tr *tracer.T, seed int64, c *fsCase) int {
 	if ab != nil {
 		abMsg = ab.Msg + " " + ab.Err
 	}
-	tr.Emit(tracer.Ev{"e": "done", "case": c.Id, "err": runErr != nil, "errmsg": fmt.Sprint(runErr), "abort": ab != nil, "abortmsg": abMsg, "panic": pan,
+	faultMu.Lock()
+	ff := faultFired
+	faultMu.Unlock()
+	tr.Emit(tracer.Ev{"e": "done", "case": c.Id, "fault_fired": ff, "err": runErr != nil, "errmsg": fmt.Sprint(runErr), "abort": ab != nil, "abortmsg": abMsg, "panic": pan,
 		"conns": len(seenConn), "took_ms": took.Milliseconds(), "scripts_loaded": len(srv.Scripts()), "script_db": fsScriptDb})
 	// final keyspace against the source's logical values
 	snap := srv.Snapshot()
